@@ -11,7 +11,7 @@ from .c01 import store, stored_codes, small_formats
 PROPERTY = 'C03'
 RULE = ("Under overflow='wrap': stored code must satisfy lo<=code<=hi AND code == ROUND(x) (mod 2^n_word) (two independent conditions; the model's OVERFLOW is not used); "
         "metamorphic: storing v+j*2^(n_word-n_frac), j in -3..3, stores the same code; register: add/sub/mul of two wrap operands into a wrap out_like of n_word bits "
-        "equals (ka op kb) mod 2^n_word, for n_word<=52 and 64..256; register-mixed: operands of independent formats (n_word<=52) delivered through out_like / out / numpy out= / call / config.op_out into a wrap register of a third format (n_word<=52 or 64..256, usually fewer fraction bits than the exact result, any rounding mode): code == ROUND(exact*2^n_frac) (mod 2^n_word); register-reduce: the same for sum / cumsum / dot of arrays accumulated into such a register (out=, method out_like=, numpy out=, call). Generated: exhaustive quarter-LSB grid over 3x range for n_word<=6; Hypothesis formats up to 52 bits with bases "
+        "equals (ka op kb) mod 2^n_word, for n_word<=52 and 64..256; register-mixed: operands of independent formats (n_word<=52) delivered through out_like / out / numpy out= / call / config.op_out into a wrap register of a third format (n_word<=52 or 64..256, usually fewer fraction bits than the exact result, any rounding mode): code == ROUND(exact*2^n_frac) (mod 2^n_word); register-reduce: the same for sum / cumsum / max / min / dot of arrays delivered into such a register (out=, method out_like=, numpy out=, call). Generated: exhaustive quarter-LSB grid over 3x range for n_word<=6; Hypothesis formats up to 52 bits with bases "
         "at multiples of 2^n_word +- small on both sides; n_word 64..256 with Python-int inputs up to 4*n_word bits (raw and integer-value mode; value mode with n_frac in {0,1,3,n_word//2,-1,-4,-8}, negative n_frac rounding exactly). "
         "Non-trivial = ROUND(x) outside [lo,hi]; distinct = distinct (format, rounding, route, input).")
 ASSUMPTIONS = ['core-domain inputs are exact doubles; wide formats use Python-int inputs only (float inputs into >=64-bit words are outside the statement)',
@@ -251,6 +251,8 @@ def check_register_reduce(ctx, case):
         exact = [sum(vas)]
     elif op == 'cumsum':
         exact = [sum(vas[:i + 1]) for i in range(len(vas))]
+    elif op in ('max', 'min'):
+        exact = [max(vas) if op == 'max' else min(vas)]
     else:
         exact = [sum(a * b for a, b in zip(vas, vbs))]
     want = [M.ROUND(v * M.pow2(fd[2]), rounding) for v in exact]
@@ -262,7 +264,7 @@ def check_register_reduce(ctx, case):
         mkreg = lambda: F(None, fd[0], fd[1], fd[2], overflow='wrap', rounding=rounding)
         if op == 'dot':
             return fxpmath.dot(a, b, out=mkreg()), a.dot(b, out_like=mkreg()), np.dot(a, b, out=mkreg()), mkreg()(a.dot(b))
-        fn = getattr(fxpmath, op)
+        fn = getattr(fxpmath, {'max': 'fxp_max', 'min': 'fxp_min'}.get(op, op))
         # the operand itself is the wrap register: 'same' sizing keeps its format and its wrap configuration
         aw = F(np.array(kas, dtype=np.int64), fa[0], fa[1], fa[2], raw=True, overflow='wrap', op_sizing='same')
         return fn(a, out=mkreg()), getattr(a, op)(out_like=mkreg()), getattr(np, op)(a, out=mkreg()), mkreg()(fn(a)), getattr(aw, op)()
@@ -492,7 +494,7 @@ def body_register_mixed(ctx, case):
 def st_register_reduce_case(draw):
     fa = draw(C.st_fmt(max_w=52, min_w=2, f_lo=0, f_hi_extra=0))
     fb = draw(C.st_fmt(max_w=52, min_w=2, f_lo=0, f_hi_extra=0))
-    op = draw(st.sampled_from(['sum', 'cumsum', 'dot', 'dot']))
+    op = draw(st.sampled_from(['sum', 'cumsum', 'dot', 'dot', 'max', 'min']))
     if op != 'dot':
         fb = fa
     n = draw(st.integers(1, 5))
